@@ -430,7 +430,7 @@ namespace c19
             {
                 auto& r = R<0>();
                 long ev[4] = {r.assign_to_dead, r.from_dead, r.dtor_dead, r.ctor_over_live};
-                static const char* nm_[4] = {"assign_unconstructed", "read_destroyed", "destroy_unconstructed", "construct_over_live"};
+                static const char* nm_[4] = {"assign_unconstructed", "read_dead_object", "destroy_unconstructed", "construct_over_live"};
                 for (int e = 0; e < 4; e++) {
                     if (ev[e] > ev_prev[e]) found.emplace_back(cls, nm_[e]);
                     ev_prev[e] = ev[e];
